@@ -38,7 +38,8 @@ const (
 	c05SynStyleNoCounts
 	c05SynSwapIDs
 	c05SynStripDefaults // [Content_Types].xml lists only the Default extensions the package uses
-	c05SynAll = 1<<iota - 1
+	c05SynCalcChain     // xl/calcChain.xml listing every formula cell (as Excel writes it), with Override and workbook relationship
+	c05SynAll           = 1<<iota - 1
 )
 
 var (
@@ -52,6 +53,12 @@ var (
 	c05ReDefault   = regexp.MustCompile(`<Default Extension="([A-Za-z0-9]+)" ContentType="[^"]*"(></Default>|/>)`)
 	c05ReStyleCnt  = regexp.MustCompile(`<(fonts|fills|borders|cellStyleXfs|cellXfs|cellStyles|dxfs|numFmts) count="(\d+)"`)
 )
+
+// formula cells of the base workbook (sheet, cell, formula); D6 of Sheet1 is set separately
+var c05SynthFormulaCells = [][3]string{
+	{"Sheet1", "D2", "A2&B2"}, {"Sheet1", "D3", "LEN(A3)"}, {"Sheet1", "B4", "A4+1"}, {"Sheet1", "C5", "SUM(A1:B4)"},
+	{"Data", "C1", "LEN(A1)"}, {"Data", "C8", "B8&\"x\""},
+}
 
 // c05SynthBase builds the base workbook: a dense 4x6 block on Sheet1 whose
 // strings repeat (several cells share one <si>), numbers, a formula, two
@@ -74,6 +81,9 @@ func c05SynthBase(variant int) []byte {
 		}
 	}
 	_ = f.SetCellFormula("Sheet1", "D6", "SUM(A1:C5)")
+	for _, fc := range c05SynthFormulaCells {
+		_ = f.SetCellFormula(fc[0], fc[1], fc[2])
+	}
 	st, _ := f.NewStyle(&xl.Style{Font: &xl.Font{Bold: true}, NumFmt: 2})
 	_ = f.SetCellStyle("Sheet1", "A1", "D1", st)
 	st2, _ := f.NewStyle(&xl.Style{Fill: xl.Fill{Type: "pattern", Pattern: 1, Color: []string{"FFFF00"}}})
@@ -155,6 +165,27 @@ func c05Synth(variant, flags int) []byte {
 	if flags&c05SynSwapIDs != 0 {
 		data = c05SwapSheetIDs(data)
 	}
+	if flags&c05SynCalcChain != 0 {
+		// Sheet1 has sheetId 1, Data sheetId 2 (the swap rewrite is excluded with this flag)
+		var cc strings.Builder
+		cc.WriteString(`<?xml version="1.0" encoding="UTF-8" standalone="yes"?>` + "\n" + `<calcChain xmlns="http://schemas.openxmlformats.org/spreadsheetml/2006/main">`)
+		cc.WriteString(`<c r="D6" i="1"/>`)
+		for _, fc := range c05SynthFormulaCells {
+			id := "1"
+			if fc[0] == "Data" {
+				id = "2"
+			}
+			cc.WriteString(`<c r="` + fc[1] + `" i="` + id + `"/>`)
+		}
+		cc.WriteString(`</calcChain>`)
+		data = c05AddZipEntry(data, "xl/calcChain.xml", []byte(cc.String()))
+		data = c05RewriteZip(data, "[Content_Types].xml", func(b []byte) []byte {
+			return []byte(strings.Replace(string(b), "</Types>", `<Override PartName="/xl/calcChain.xml" ContentType="application/vnd.openxmlformats-officedocument.spreadsheetml.calcChain+xml"/></Types>`, 1))
+		})
+		data = c05RewriteZip(data, "xl/_rels/workbook.xml.rels", func(b []byte) []byte {
+			return []byte(strings.Replace(string(b), "</Relationships>", `<Relationship Id="rId77" Type="http://schemas.openxmlformats.org/officeDocument/2006/relationships/calcChain" Target="calcChain.xml"/></Relationships>`, 1))
+		})
+	}
 	if flags&c05SynStripDefaults != 0 {
 		// another producer lists only what it uses: rels, xml, png (the picture), vml (the comment)
 		data = c05RewriteZip(data, "[Content_Types].xml", func(b []byte) []byte {
@@ -171,7 +202,7 @@ func c05Synth(variant, flags int) []byte {
 }
 
 func c05SynthName(flags int) string {
-	names := []string{"sst-count", "sst-nounique", "sst-nocounts", "no-r", "spans", "gaps", "style-counts", "style-nocounts", "swap-ids", "strip-defaults"}
+	names := []string{"sst-count", "sst-nounique", "sst-nocounts", "no-r", "spans", "gaps", "style-counts", "style-nocounts", "swap-ids", "strip-defaults", "calcchain"}
 	var out []string
 	for i, n := range names {
 		if flags&(1<<i) != 0 {
@@ -189,9 +220,9 @@ func c05SynthPick(rng *Rng) (variant, flags int) {
 	variant = rng.Intn(6)
 	switch rng.Intn(4) {
 	case 0:
-		flags = 1 << rng.Intn(10)
+		flags = 1 << rng.Intn(11)
 	case 1:
-		flags = 1<<rng.Intn(10) | 1<<rng.Intn(10)
+		flags = 1<<rng.Intn(11) | 1<<rng.Intn(11)
 	default:
 		flags = rng.Intn(c05SynAll + 1)
 	}
@@ -200,6 +231,9 @@ func c05SynthPick(rng *Rng) (variant, flags int) {
 	}
 	if flags&c05SynStyleNoCounts != 0 {
 		flags &^= c05SynStyleCounts
+	}
+	if flags&c05SynCalcChain != 0 {
+		flags &^= c05SynSwapIDs // the chain names sheets by id
 	}
 	return
 }
@@ -265,6 +299,31 @@ func c05SynthWitnesses() []c05Witness {
 		ws = append(ws, c05Witness{"synth:strip-defaults-media", append([]string{"h.openbytes " + hx(string(data)), "h.save"}, media(s1, s2)...)})
 	}
 	ws = append(ws, c05Witness{"book1-media", append([]string{"h.open Book1.xlsx"}, media(s1, hx("Sheet2"))...)})
+	// structural edits exactly at, before and after the rows / columns of chained formula cells
+	if data := c05Synth(0, c05SynCalcChain); data != nil {
+		open := "h.openbytes " + hx(string(data))
+		for i, edits := range [][]string{
+			{"h.insrows " + s1 + " 2 1", "h.save", "h.insrows " + s1 + " 7 2", "h.save", "h.insrows " + s1 + " 1 1", "h.save"},
+			{"h.inscols " + s1 + " D 1", "h.save", "h.inscols " + s1 + " B 2", "h.save", "h.inscols " + s1 + " A 1", "h.save"},
+			{"h.rmrow " + s1 + " 3", "h.save", "h.rmrow " + s1 + " 1", "h.save", "h.rmrow " + s1 + " 5", "h.save"},
+			{"h.rmcol " + s1 + " D", "h.save", "h.rmcol " + s1 + " A", "h.save"},
+			{"h.insrows " + s2 + " 1 1", "h.inscols " + s2 + " C 1", "h.save", "h.rmrow " + s2 + " 9", "h.rmcol " + s2 + " A", "h.save"},
+			{"h.duprow " + s1 + " 2", "h.save", "h.duprowto " + s1 + " 3 1", "h.save", "h.setval " + s1 + " D2 1 5", "h.setstr " + s1 + " D4 " + hx("x"), "h.save",
+				"h.setformula " + s1 + " A1 " + hx("1+1") + " 0 -", "h.save", "h.reopen", "h.insrows " + s1 + " 4 1", "h.save"},
+		} {
+			ws = append(ws, c05Witness{"synth:calcchain-edit-" + strconv.Itoa(i), append([]string{open, "h.save"}, edits...)})
+		}
+		// every chained formula overwritten: the chain part goes away
+		emptied := []string{open, "h.setval " + s1 + " D6 1 1"}
+		for _, fc := range c05SynthFormulaCells {
+			emptied = append(emptied, "h.setval "+hx(fc[0])+" "+fc[1]+" 1 7")
+		}
+		ws = append(ws, c05Witness{"synth:calcchain-emptied", append(emptied, "h.save")})
+		// CopySheet over a worksheet that has chained formulas
+		ws = append(ws, c05Witness{"synth:calcchain-copysheet", []string{open, "h.copysheet 1 0", "h.save"}})
+		// a row edit that is rejected half-way (a data validation formula the adjuster cannot parse)
+		ws = append(ws, c05Witness{"synth:calcchain-rejected-edit", []string{open, "h.dv " + s2 + " " + hx("C12:D13") + " 1 21 " + hx("</formula1>"), "h.duprow " + s2 + " 1", "h.save"}})
+	}
 	// CopySheet in a workbook whose sheet IDs and part numbers disagree
 	if data := c05Synth(1, c05SynSwapIDs); data != nil {
 		ws = append(ws, c05Witness{"synth:swap-ids-copysheet", []string{"h.openbytes " + hx(string(data)),
